@@ -67,9 +67,11 @@ def main():
     for fam in (['II', 'OO'] if quick else ['II', 'OO', 'LF', 'fs', 'OI', 'QQ']):
         for is_set in (True, False):
             for (lf, it) in ((2, 2), (2, 3), (3, 2)):
-                eplan.append(dict(fam=fam, impl='c', is_set=is_set, leaf=lf, internal=it, nkeys=15, grow=True,
-                                  ntraces=10 if quick else 120, length=50 if quick else 90,
-                                  seed=ck.seed * 100000 + 3000 + len(eplan), emb='mid'))
+                for impl in ('c', 'py'):
+                    eplan.append(dict(fam=fam, impl=impl, is_set=is_set, leaf=lf, internal=it, nkeys=15, grow=True,
+                                      ntraces=(10 if impl == 'c' else 6) if quick else 120, length=50 if quick else 90,
+                                      pure=(impl == 'py'), pcut_abort=0.4,
+                                      seed=ck.seed * 100000 + 3000 + len(eplan), emb='mid'))
     validate_evict(ck, jobs.run_jobs('harness.workers.evict_worker', eplan, pure=True))
     ck.assumptions += ['node sizes >= 2, set on the classes before first use',
                        'the database histories use the stand-in data manager (harness/minijar.py)',
